@@ -81,35 +81,13 @@ def run(tier, seed):
     # fault story: the failed batch owns the head of a retired multi-block extent, another worker's
     # acknowledged record lies inside that extent; judged as a sequential history by TraceStore.tla
     import seqengine as sq
-    stories = []
-    shm = v.shm_dir("c09")
-    for i in range(2 if tier == "quick" else 8):
-        t = os.path.join(rd, "story_%d.ndjson" % i)
-        rc, so, se = v.run_cmd([fxv, "faultstory", "--out", t, "--dir", shm, "--attempts", "80",
-                                "--cache", str(i % 2)], timeout=120)
-        if rc == 3:
-            continue            # the two workers never produced the layout of the story
-        if rc != 0:
-            raise v.ToolError("fxv faultstory failed: " + se[-400:])
-        stories.append(t)
-    import shutil
-    shutil.rmtree(shm, ignore_errors=True)
-    if not stories:
-        raise v.ToolError("fault story: the layout could not be produced in any run")
-    placements += len(stories)
-    for g in sq.validate(rd, stories, ["ResultsMatch", "AccountingExact"], "story", chunk=1):
-        r = g["r"]
-        tot["traces"] += 1
-        tot["states"] += r.distinct
-        if r.violation and r.violation.startswith("invariant"):
-            tt, i, ev, fl = sq.explain(g)
-            keep = v.save_replay("c09", os.path.basename(tt), open(tt).read())
-            all_viol.append({"what": "fault story: after a determinate journal-write failure, a successful flush and a clean "
-                                     "reopen the contents are not the accepted ones: %s flags=%s at event %s: %s"
-                                     % (r.violation, fl, i, sq.short_event(ev)),
-                             "replay": keep, "key": "story %s %s" % (r.violation, fl)})
-        else:
-            v.tlc_ok(r, "TraceStore(story)")
+    sv, sn, sst = sq.run_stories(PROP, fxv, rd, "faultstory", 2 if tier == "quick" else 8,
+                                 "after a determinate journal-write failure, a successful flush and a clean reopen "
+                                 "the contents are not the accepted ones")
+    all_viol += sv
+    placements += sn
+    tot["traces"] += sn
+    tot["states"] += sst
     cov = {
         "evaluations": placements, "distinct_nontrivial": tot["traces"],
         "rule": "one case = one workload run with one fault placement: (device call index i, fail before the "
@@ -126,14 +104,7 @@ def run(tier, seed):
 
 
 def replay(path):
-    if os.path.basename(path).startswith("story_"):
-        import seqengine as sq
-        g = sq.validate(v.run_dir("c09_replay"), [path], ["ResultsMatch", "AccountingExact"], "replay")[0]
-        if g["r"].violation:
-            t, i, ev, fl = sq.explain(g)
-            print("rejected: %s flags=%s at event %s: %s" % (g["r"].violation, fl, i, sq.short_event(ev)))
-            print("VIOLATION property=C09 replay=%s" % path)
-            return 1
-        print("trace accepted")
-        return 0
+    import seqengine as sq
+    if sq.is_story(path):
+        return sq.replay_story(PROP, path)
     return ce.replay(PROP, path, INV)
